@@ -45,9 +45,9 @@ MUTANTS = [
     ("fmt-static-temporaries", "C07", "K-", [
         ("ffcx/codegeneration/C/formatter.py", 'cstr = "static const " if arr.const else ""',
          'cstr = "static const " if arr.const else "static "', 1)], 200),
-    ("gen-assign-instead-of-add", "C07", "K-ADD", [
-        ("ffcx/codegeneration/integral_generator.py", "body.append(L.AssignAdd(A[multi_index], expression))",
-         "body.append(L.Assign(A[multi_index], expression))", 1)], 100),
+    ("fmt-assign-instead-of-add-on-A", "C07", "K-ADD", [
+        ("ffcx/codegeneration/C/formatter.py", '        return f"{lhs} {expr.op} {rhs};\\n"',
+         '        return f"{lhs} {\'=\' if lhs.startswith(\'A[\') else expr.op} {rhs};\\n"', 1)], 100),
     ("licm-temp-not-zeroed", "C07", "K-", [
         ("ffcx/codegeneration/optimizer.py", "pre_loop.append(L.ArrayDecl(temp, size, [0]))",
          "pre_loop.append(L.ArrayDecl(temp, size))", 1),
